@@ -150,6 +150,11 @@ func checkC20Parse(c *Ctx, n int) {
 			}}
 		}
 		cs := &Case{Name: "app", NsDelim: ".", EnvNsDelim: "_"}
+		// (a third of the parsers pass everything behind the first non-option through: the diagnostic for a
+		// word that is no command is the same)
+		if r.Intn(3) == 0 {
+			cs.Opts |= flags.PassAfterNonOption
+		}
 		cs.Build = append(cs.Build, BuildOp{Kind: "addgroup", Target: 1, Short: "Application Options", Struct: sd})
 		// the word: missing, at a chosen distance from a name (around the half-length threshold), or arbitrary
 		given := true
